@@ -270,3 +270,24 @@ def _content_text(repo, ob, failure):
         if want not in texts:
             return {"input": doc, "observed": "character data of generated text: %r" % texts, "expected": repr(want)}
     return None
+
+
+@generator("C06.")
+def _determinism(repo, ob, failure):
+    """same input, same configuration, several fresh processes: the bytes must be identical"""
+    docs = [
+        '<svg>' + "".join('<rect xy="%d 0" wh="8" class="d-grid-%d d-hatch-%d d-stipple-%d"/>' % (10 * i, i + 2, i + 3, i + 4) for i in range(8)) + '</svg>',
+        '<svg><rect wh="5" class="d-red d-fill-blue d-softshadow d-grid"/><text xy="1" text="{{random()}}"/></svg>',
+    ]
+    for doc in docs:
+        outs = set()
+        for _ in range(8):
+            r = run_svgdx(repo, doc)
+            outs.add((r["rc"], r["out"]))
+        if len(outs) > 1:
+            import difflib
+            a, b = sorted(outs)[:2]
+            d = [l for l in difflib.unified_diff(a[1].split("\n"), b[1].split("\n"), lineterm="", n=0)][:8]
+            return {"input": doc[:400], "observed": "%d different outputs in 8 runs; first difference: %s" % (len(outs), " | ".join(d)[:500]),
+                    "expected": "identical bytes on every run"}
+    return None
